@@ -287,6 +287,8 @@ pub fn load_skeleton_args<S: Src>(s: &mut S, variant: u8, env_aspects: bool, fix
         i += 1;
     }
     let exit_value = s.u32();
+    // `omit` == 3: full file plus ONE zero-fill probe at a symbolic DRAM offset (drawn only in that instantiation)
+    let probe_off = if omit == 3 { s.u32() } else { 0 };
     let (nargs, ab) = match fixed {
         None => {
             let n = s.u8() as usize;
@@ -470,6 +472,22 @@ pub fn load_skeleton_args<S: Src>(s: &mut S, variant: u8, env_aspects: bool, fix
     }
     // stack region, TCB and argument block lie above the image, in that order, inside DRAM
     let ok_layout = image_end <= cpu.er[7] && stack_end + 88 <= argv && at <= 0x5fffff;
+    // symbolic zero-fill probe: every DRAM byte (of the modelled prefix) that is neither file content of a segment nor
+    // part of the argument block the loader writes ([argv, at)) still reads zero - bss, gaps, stack region, TCB, the
+    // bytes below the load base and above the argument block
+    let mut ok_zero_sym = true;
+    let off = probe_off % (DRAM_MODEL as u32);
+    let a = 0x400000 + off;
+    witness!(when: omit == 3, a > image_end && a < cpu.er[7], "probe inside the stack region");
+    witness!(when: omit == 3, a >= BASE + 0x18 && a < BASE + seg2_vaddr, "probe in the bss / gap of the first segment");
+    if omit == 3 {
+        let in_seg1 = a >= BASE + SEG1_VADDR && a < BASE + SEG1_VADDR + SEG1_FILESZ;
+        let in_seg2 = a >= BASE + seg2_vaddr && a < BASE + seg2_vaddr + SEG2_FILESZ;
+        let in_args = a >= argv && a < at;
+        if !in_seg1 && !in_seg2 && !in_args && dram(&cpu, a) != 0 {
+            ok_zero_sym = false;
+        }
+    }
     witness!(when: fixed.is_none(), nargs == 3 && nw == 2, "two argument words");
     witness!(when: fixed.is_none(), nargs == 0, "empty argument string");
     witness!(cpu.er[2] == BASE, "load returned");
@@ -481,7 +499,7 @@ pub fn load_skeleton_args<S: Src>(s: &mut S, variant: u8, env_aspects: bool, fix
         let no_symtab = omit == 2;
         verdict!("entry" => ok_entry, "stack_pointer" => ok_sp || no_stack, "exit_addr" => ok_exit || no_symtab, "args" => ok_args || no_stack, "layout" => ok_layout || no_stack);
     } else {
-        verdict!("segments" => ok_segments, "zero_fill" => ok_zero, "got" => ok_got, "outside_dram" => ok_outside);
+        verdict!("segments" => ok_segments, "zero_fill" => ok_zero, "got" => ok_got, "outside_dram" => ok_outside, "zero_fill_symbolic_probe" => ok_zero_sym);
     }
 }
 
